@@ -59,13 +59,28 @@ Definition run_render (s : sx) : sx :=
   sx_res (fun p => SL [sx_str (fst p); enc_tokens (snd p)])
          (render (dec_ropts (sx_nth s 0%nat)) (dec_tokens (sx_nth s 1%nat))).
 
+Fixpoint enc_dval (fuel : nat) (d : dval) : sx :=
+  match fuel with
+  | O => SL []
+  | S f =>
+      match d with
+      | DNone => SL [SI 0]
+      | DBool b => SL [SI 1; sx_bool b]
+      | DInt z => SL [SI 2; SI z]
+      | DStr v => SL [SI 3; sx_str v]
+      | DList l => SL [SI 4; sx_list (enc_dval f) l]
+      | DDict l => SL [SI 5; sx_list (fun kv => SL [sx_str (fst kv); enc_dval f (snd kv)]) l]
+      | DToken t => SL [SI 6; enc_token t]
+      end
+  end.
+
 (* 21: dict round trip (children upstream tokens) -> per token: 1 if from_dict (as_dict t) = t *)
 Definition run_dict (s : sx) : sx :=
   let ch := un_bool (sx_nth s 0%nat) in
   let up := un_bool (sx_nth s 1%nat) in
   sx_list (fun t => match from_dict (depth t) (as_dict ch up t) with
-                    | Some t' => SL [SI (if token_eqb t t' then 1 else 0); enc_token t']
-                    | None => SL [SI (-1)]
+                    | Some t' => SL [SI (if token_eqb t t' then 1 else 0); enc_dval 40 (DDict (as_dict ch up t))]
+                    | None => SL [SI (-1); enc_dval 40 (DDict (as_dict ch up t))]
                     end) (dec_tokens (sx_nth s 2%nat)).
 
 Fixpoint enc_node (fuel : nat) (n : node) : sx :=
